@@ -793,8 +793,62 @@ class Tab:
                                  % (name, rev, lead, R, d0, p, rev, o, rots, rd, d, pr, lead, e if R >= 0 else "-", d0), self.T.where(name))
         if n < 150:
             raise AnalysisBroken("T20: only %d (pentagon, direction, leading digit) instances" % n)
+        # the other direction ("mutually inverse wherever both succeed"): whatever cell the reverse table produces for an arriving leading digit,
+        # unfolding that cell forward again must give the same leading digit back, or fail
+        def forward(p, rev, d0):
+            o = bn[p][rev]
+            dirs = [d for d in range(1, 7) if bn[o][d] == p]
+            if len(dirs) != 1:
+                return None
+            rots = br[o][dirs[0]]
+            d, rd = d0, rev
+            for _ in range(rots):
+                d = cw(d)
+                if d == K:
+                    d = cw(d)
+                rd = cw(rd)
+                if rd == K:
+                    rd = cw(rd)
+            if FD[d][rd]:
+                return None
+            pr = PR[rd][d]
+            if pr < 0:
+                return None
+            lead = d
+            for _ in range(pr):
+                lead = cw(lead)
+            for _ in range(rots):
+                lead = ccw(lead)
+            return lead
+        n2 = 0
+        for p in self.pentagons():
+            name = "PENTAGON_ROTATIONS_REVERSE_POLAR" if p in polar else "PENTAGON_ROTATIONS_REVERSE_NONPOLAR"
+            tab = PO if p in polar else NP
+            for rev in range(2, 7):
+                if not (0 <= bn[p][rev] < len(bn)):
+                    continue
+                for lead in range(1, 7):
+                    R = tab[rev][lead]
+                    if R < 0:
+                        continue
+                    e = lead
+                    for _ in range(R):
+                        e = ccw(e)
+                        if e == K:
+                            e = ccw(e)
+                    if e == K:
+                        continue
+                    n2 += 1
+                    back = forward(p, rev, e)
+                    if back is not None and back != lead:
+                        nbad += 1
+                        self.bad("T20", "%s[%d][%d]:back" % (name, rev, lead),
+                                 "%s[%d][%d] = %d: coordinates arriving on pentagon base cell %d (seen from its neighbour in direction %d) with leading digit %d are turned into a cell with "
+                                 "leading digit %d, but cellToLocalIjk unfolds that cell to leading digit %d: both directions succeed and disagree (localIjToCell / cellToLocalIj are "
+                                 "not mutually inverse there)" % (name, rev, lead, R, p, rev, lead, e, back), self.T.where(name))
         if not nbad:
-            self.ok("T20", n, "%d (pentagon, neighbour direction, leading digit) instances: the _NONPOLAR/_POLAR reverse tables undo the forward unfolding of an index on a pentagon base cell" % n)
+            self.ok("T20", n + n2, "%d forward instances (the _NONPOLAR/_POLAR reverse tables undo the forward unfolding of an index on a pentagon base cell) and %d reverse instances "
+                    "(the cell a reverse entry produces unfolds back to the same leading digit or is refused)" % (n, n2))
 
     # ------------------------------------------------------------- T21
     def _linear(self, f, o, depth=0):
